@@ -233,7 +233,7 @@ def gen(S, tier):
            "style_build": c.weighted([("enable", 6), ("explicit", 2), ("on_off", 1)]),
            # another style set of the process (same tags with other styles, plus tags this
            # formatter does not know), created before or after the formatter under test
-           "decoy": c.weighted([(None, 6), ("before", 2), ("after", 2)])}
+           "decoy": c.weighted([(None, 6), ("before", 2), ("after", 2)]), "decoy_same_class": c.chance(0.5)}
     tags = [t for t, _ in extra] + (list(DEFAULT_TAGS) if cfg["default_set"] else ["info", "comment", "error", "question"])
     w = S("workload")
     ops = _gen_ops(w, tags, 0, [30])
@@ -251,6 +251,8 @@ def gen(S, tier):
         for name in ("out", "err"):
             if f.chance(0.6):
                 faults[name] = sorted({f.randrange(12) for _ in range(f.randint(1, 2))})
+    if f.chance(0.1):
+        faults["flush"] = {name: sorted({f.randrange(14) for _ in range(f.randint(0, 2))}) for name in ("out", "err")}
     if f.chance(0.08):
         # the stream goes away for good (closed pipe): every write after the k-th fails
         faults["close_after"] = {f.pick(["out", "err"]): f.randrange(10)}
@@ -260,6 +262,8 @@ def gen(S, tier):
 def simplify(sc):
     if sc["faults"]["out"] or sc["faults"]["err"] or sc["faults"].get("close_after"):
         yield dict(sc, faults={"out": [], "err": []})
+    if sc["faults"].get("flush") is not None:
+        yield dict(sc, faults={k: v for k, v in sc["faults"].items() if k != "flush"})
     if sc["config"]["extra_styles"]:
         yield dict(sc, config=dict(sc["config"], extra_styles=sc["config"]["extra_styles"][:-1]))
 
@@ -336,7 +340,17 @@ def _decoy_set(cfg):
     """A second, unrelated style set: must not influence the formatter under test."""
     from clikit.api.formatter import Style, StyleSet
     from clikit.formatter import DefaultStyleSet
-    ss = DefaultStyleSet() if not cfg["default_set"] else StyleSet()
+    # of the other class than the set under test, or (decoy_same_class) another instance of the same class
+    other = not cfg["default_set"]
+    if cfg.get("decoy_same_class"):
+        other = not other
+    ss = DefaultStyleSet() if other else StyleSet()
+    if cfg.get("decoy_same_class") and other and hasattr(ss, "remove"):
+        for tag in ("c1", "question"):
+            try:
+                ss.remove(tag)      # this user does not want these default styles
+            except Exception:
+                pass
     for tag, spec in cfg["extra_styles"]:
         fg, bg, attrs = spec
         other = [bg or "magenta", fg or "white", [a for a in ATTRS if a not in attrs][:2]]
@@ -397,6 +411,13 @@ class _Twin(object):
             "err": SimOutputStream(name + ".err", log, ansi=ansi_stream, fail_at=sc["faults"]["err"], close_after=ca.get("err")),
             "sec": SimOutputStream(name + ".sec", log, ansi=ansi_stream),
         }
+        fl = sc["faults"].get("flush")
+        if fl is not None:
+            # clikit's own StreamOutputStream over a buffered text file; fault: a flush() is interrupted
+            # (EINTR) - the text was accepted, stays in the file's buffer and goes out with the next flush
+            from ..realstream import RealStreamOutput, SimFile
+            for k_ in ("out", "err"):
+                self.streams[k_] = RealStreamOutput(SimFile(name + "." + k_, log, flush_fail_at=fl.get(k_, ())), ansi_stream)
 
         from clikit.io import BufferedIO
         self.decoys = []
@@ -427,7 +448,12 @@ class _Twin(object):
         self.records = []  # (path, kind, expected, got, info)
 
     def mark(self):
-        return {k: len(s.writes) for k, s in self.streams.items()}
+        m = {k: len(s.writes) for k, s in self.streams.items()}
+        for k, s in self.streams.items():
+            f_ = getattr(s, "file", None)
+            if f_ is not None and f_.buffer:
+                m["pending:" + k] = f_.buffer   # accepted by an earlier, interrupted operation
+        return m
 
     def since(self, mark, stream):
         if stream == "buf":
@@ -438,7 +464,11 @@ class _Twin(object):
             got = self.buf.fetch_error()
             self.buf.clear_error()
             return got
-        return "".join(d for _, d in self.streams[stream].writes[mark[stream]:])
+        data = "".join(d for _, d in self.streams[stream].writes[mark[stream]:])
+        pend = mark.get("pending:" + stream)
+        if pend and data.startswith(pend):
+            data = data[len(pend):]
+        return data
 
 
 def _run_twin(sc, tw, res, count_probes):
@@ -618,6 +648,9 @@ def _run_twin(sc, tw, res, count_probes):
             tw.streams[stream].fail_at = set()
             tw.streams[stream].close_after = None
             tw.streams[stream]._closed = False  # the harness reopens the pipe for the final indentation probe
+            f_ = getattr(tw.streams[stream], "file", None)
+            if f_ is not None:
+                f_.flush_fail_at = set()
         mk = tw.mark()
         getattr(tw.targets[tgt], method)("END")
         tw.records.append((("end", stream), "write", ("END", 0, True, False, tgt), tw.since(mk, stream), (tgt, method, 0, 0, 0, False)))
@@ -671,6 +704,8 @@ def execute(sc):
     for s in list(A.streams.values()) + list(P.streams.values()):
         if s.faults_fired:
             res.fault("stream_write_error", s.faults_fired)
+        if getattr(getattr(s, "file", None), "faults_fired", 0):
+            res.fault("flush_interrupted", s.file.faults_fired)
 
     ra = {r[0]: r for r in A.records}
     rp = {r[0]: r for r in P.records}
